@@ -29,7 +29,7 @@ RULE = ("life: one line = a schedule run by one goroutine against real servers s
         "(SMTP/POP3) parked in a protocol position (greeted, HELO, MAIL, RCPT, DATA accepted, body half sent; USER, PASS, DELE marked), an "
         "SMTP or POP3 session held before it starts (verifhook smtp.session.start / pop3.session.start), a POP3 QUIT whose deletions wait in a gated "
         "store (wrapper around storage.Store handed to pop3.NewServer), cancel, then client activity (advance, finish with QUIT, drop), "
-        "fresh connection attempts and Drain calls in a random order; each case in its own process. asm19: the assembled server (server.FullAssembly + Services.Start, child process) with one of the three listeners unable to bind (address occupied) or none: after the failure is notified, what cmd/inbucket/main.go does next (cancel, SMTP drain, POP3 drain, retention Join) must return. early: shutdown requested before (already-cancelled context) / right after Services.Start, or at once after a bind failure was notified — afterwards every port the server bound must be closed (dial refused and bindable again), drains and Join return. One long schedule runs in the THOROUGH tier only (about 35 s of real time): an SMTP and a POP3 session kept talking for 14 s / 16 s after Drain was called — hidden grace periods of Drain up to that length are not explored by the quick tier (its busy sessions last 1.7 s). scan: one DoScan pass (memory store, or the file store with its three nested directory levels) over n mailboxes (some with expired mail, most without) cancelled just before the k-th mailbox callback — promptness judged by the number of callbacks that still run (at most the one under way), not by wall time. ret: retention scanner Start/Join and "
+        "fresh connection attempts and Drain calls in a random order; each case in its own process. asm19: the assembled server (server.FullAssembly + Services.Start, child process) with one of the three listeners unable to bind (address occupied) or none: after the failure is notified, what cmd/inbucket/main.go does next (cancel, SMTP drain, POP3 drain, retention Join) must return. early: shutdown requested before (already-cancelled context) / right after Services.Start, or at once after a bind failure was notified — afterwards every port the server bound must be closed (dial refused and bindable again), drains and Join return. One long schedule runs in the THOROUGH tier only (about 35 s of real time): an SMTP and a POP3 session kept talking for 14 s / 16 s after Drain was called — hidden grace periods of Drain up to that length are not explored by the quick tier (its busy sessions last 1.7 s). A second long schedule, also THOROUGH tier only (about 30 s): after the cancel each session sends a command, then every client is completely silent for 9 s and later for 17 s (configured idle timeout: 30 s); the command after each gap must be answered as usual, Drain must stay blocked, the POP3 deletions marked before the cancel must be applied at QUIT — silent gaps of up to that length after the cancel are explored in the thorough tier only (the quick tier's longest silence is about 2 s), longer ones not at all. scan: one DoScan pass (memory store, or the file store with its three nested directory levels) over n mailboxes (some with expired mail, most without) cancelled just before the k-th mailbox callback — promptness judged by the number of callbacks that still run (at most the one under way), not by wall time. ret: retention scanner Start/Join and "
         "DoScan cancelled before / in the middle / never. distinct = distinct input line; non-trivial = a session is open when cancel "
         "happens (life) or the scan is cancelled (ret).")
 TRUSTED = ["sync.WaitGroup, net.Listener.Close/Accept and context cancellation behave as modelled (Wait returns iff the counter is zero; "
